@@ -2,9 +2,11 @@
    PARTIAL: proved for the byte streams that are encodings of conforming documents (Model/Encode.v rtree: any nesting, any
    payload bytes the declared type decodes — zero-padded or empty integers, 4-byte floats —, any size width, any subset of
    masters of unknown size, closed by a following element or the end of input), with declared paths without global
-   placeholders.  Streams the strict reader accepts only up to an error, mid-document starts and global elements are
-   covered by the correspondence run (read → write → read on mutated and hand-crafted streams). *)
-From Ebml Require Import Base Tools Spec Writer Reader Pure Encode Proofs.Tactics Proofs.WriterProofs Proofs.PureProofs Proofs.RoundTrip Proofs.WriteEnc Proofs.Fixpoint.
+   placeholders; and for such documents cut on a tag boundary (C02_fixpoint_cut_partial: the masters open at the cut may
+   declare more bytes than are present — the end of the input closes them).  Streams the strict reader accepts only up to
+   an error, mid-document starts and global elements are covered by the correspondence run (read → write → read on mutated
+   and hand-crafted streams). *)
+From Ebml Require Import Base Tools Spec Writer Reader Pure Encode Proofs.Tactics Proofs.WriterProofs Proofs.PureProofs Proofs.RoundTrip Proofs.WriteEnc Proofs.Fixpoint Proofs.Partial Proofs.CutExists Proofs.Snapshots Proofs.FixpointCut.
 
 (* [canon f]: the same tags in the writer's default encoding; [sized c t]: its sizes stay below 2^56-1 and the reader's limit.
    The writer accepts every tag the reader emitted (in particular everything the reader accepts as hierarchy-valid), emits the
@@ -67,3 +69,93 @@ Example C02_ex_run :
   snd written = [129; 147; 65; 1; 129; 5; 65; 4; 136; 63; 248; 0; 0; 0; 0; 0; 0; 65; 5; 129; 0] /\
   map out_tag (p_run C02_cfg (snd written) [RAll]) = map out_tag first.
 Proof. vm_compute. repeat split; reflexivity. Qed.
+
+(* ---- documents cut on a tag boundary.  [snapshot_doc L f] (Proofs/Partial.v, Proofs/Snapshots.v): the masters open at the
+   cut, outermost first — each with the complete sibling trees in front of it, its id, size-field width and DECLARED size,
+   which may exceed the bytes that are there — and the complete trees [f] at the innermost level.  The strict reader reads
+   such a stream without error (the end of the input closes every open master); the tags it yields are those of the complete
+   document [close_levels L f] (every open master closed around what is there), the writer accepts them under default options
+   and emits that document in canonical encoding (with the sizes of the ACTUAL content), and the second read yields the tags
+   of the first. *)
+Theorem C02_fixpoint_cut_partial : forall c L f, strict c -> c_buffered c = [] -> c_emit_eof c = true ->
+  conf_tdoc c (snapshot_doc L f) -> Forall (sized c) (map canon (close_levels L f)) ->
+  let first := p_run c (enc_tdoc (snapshot_doc L f)) [RAll] in
+  let written := run_writer (c_sp c) (map default_write (run_tags first)) [] in
+  Forall (fun r => fst r = WOk) (fst written) /\
+  snd written = enc_forest (map canon (close_levels L f)) /\
+  map out_tag (p_run c (snd written) [RAll]) = map out_tag first.
+Proof. exact read_write_read_cut. Qed.
+
+(* the tags of both reads: everything complete, then the Ends of the open masters innermost first, then the end of input *)
+Theorem C02_cut_tags : forall c L f, strict c -> c_buffered c = [] -> c_emit_eof c = true -> conf_tdoc c (snapshot_doc L f) ->
+  map out_tag (p_run c (enc_tdoc (snapshot_doc L f)) [RAll]) = map Some (tags_levels L ++ tags_forest f ++ open_ends L) ++ [None].
+Proof. exact read_write_read_cut_tags. Qed.
+
+(* every prefix of a complete conforming document that ends on a tag boundary is such a stream ([cut_doc], C12) *)
+Theorem C02_fixpoint_prefix_partial : forall c f k, strict c -> c_buffered c = [] -> c_emit_eof c = true ->
+  Forall (conf c []) f -> (k <= length (enc_forest f))%nat -> td_tail (cut_doc f k) = CutBoundary ->
+  let closed := close_levels (td_levels (cut_doc f k)) (td_f (cut_doc f k)) in
+  Forall (sized c) (map canon closed) ->
+  let first := p_run c (firstn k (enc_forest f)) [RAll] in
+  let written := run_writer (c_sp c) (map default_write (run_tags first)) [] in
+  Forall (fun r => fst r = WOk) (fst written) /\
+  snd written = enc_forest (map canon closed) /\
+  map out_tag (p_run c (snd written) [RAll]) = map out_tag first.
+Proof. exact read_write_read_prefix. Qed.
+
+Definition C02_cut_sp : spec :=
+  [ {| e_id := 129; e_ty := DMaster; e_path := [] |}; {| e_id := 16643; e_ty := DMaster; e_path := [PId 129] |};
+    {| e_id := 16642; e_ty := DBinary; e_path := [PId 129; PId 16643] |}; {| e_id := 16641; e_ty := DUInt; e_path := [PId 129] |} ].
+Definition C02_cut_cfg : cfg :=
+  {| c_sp := C02_cut_sp; c_allow_id := false; c_allow_hier := false; c_allow_over := false; c_max := Some 4000000000; c_buffered := [];
+     c_emit_eof := true |}.
+(* Root (declared 40 bytes) { UInt 5 (zero-padded, 2-byte size field); Parent (2-byte size field, declared 20 bytes) { Bin [7];
+   <end of input> } }: 16 bytes are there *)
+Definition C02_cut_levels : list level :=
+  [ {| lv_f := []; lv_id := 129; lv_sl := 1; lv_size := Some 40 |};
+    {| lv_f := [RLeaf 16641 (VU 5) [0; 5] 2%nat]; lv_id := 16643; lv_sl := 2; lv_size := Some 20 |} ].
+Definition C02_cut_f : list rtree := [RLeaf 16642 (VB [7]) [7] 1%nat].
+
+Example C02_cut_ex_hyps : strict C02_cut_cfg /\ conf_tdoc C02_cut_cfg (snapshot_doc C02_cut_levels C02_cut_f) /\
+  Forall (sized C02_cut_cfg) (map canon (close_levels C02_cut_levels C02_cut_f)).
+Proof.
+  assert (I1 : idok 129) by (exists 1%nat, 1; repeat split; cbn; lia).
+  assert (I2 : idok 16643) by (exists 2%nat, 259; repeat split; cbn; lia).
+  assert (I3 : idok 16642) by (exists 2%nat, 258; repeat split; cbn; lia).
+  assert (I4 : idok 16641) by (exists 2%nat, 257; repeat split; cbn; lia).
+  assert (L1 : conf C02_cut_cfg [129] (RLeaf 16641 (VU 5) [0; 5] 2%nat)).
+  { split; [exact I4|]. split; [lia|]. split; [vm_compute; reflexivity|]. split; [repeat constructor; lia|].
+    split; [exists DUInt; split; [reflexivity|split; [discriminate|reflexivity]]|]. split; [reflexivity|vm_compute; discriminate]. }
+  assert (L2 : conf C02_cut_cfg [129; 16643] (RLeaf 16642 (VB [7]) [7] 1%nat)).
+  { split; [exact I3|]. split; [lia|]. split; [vm_compute; reflexivity|]. split; [repeat constructor; lia|].
+    split; [exists DBinary; split; [reflexivity|split; [discriminate|reflexivity]]|]. split; [reflexivity|vm_compute; discriminate]. }
+  split; [repeat split|]. split.
+  - split; [|split; [constructor; [exact L2|constructor]|exact I]].
+    cbn [snapshot_doc td_levels td_f td_tail conf_levels C02_cut_levels lv_f lv_id lv_sl lv_size].
+    split; [constructor|]. split; [exact I1|]. split; [reflexivity|]. split; [reflexivity|]. split; [split; [lia|vm_compute; reflexivity]|].
+    split; [vm_compute; discriminate|]. split; [intros n Hn; injection Hn as <-; vm_compute; discriminate|].
+    split; [constructor; [exact L1|constructor]|]. split; [exact I2|]. split; [reflexivity|]. split; [reflexivity|].
+    split; [split; [lia|vm_compute; reflexivity]|]. split; [vm_compute; discriminate|]. split; [|exact I].
+    intros n Hn. injection Hn as <-. vm_compute. discriminate.
+  - cbn [close_levels C02_cut_levels C02_cut_f lv_f lv_id lv_sl app map]. constructor; [|constructor].
+    rewrite canon_node. apply sized_node. split; [vm_compute; reflexivity|]. split; [vm_compute; discriminate|].
+    cbn [map]. constructor; [split; [vm_compute; reflexivity|vm_compute; discriminate]|]. constructor; [|constructor].
+    rewrite canon_node. apply sized_node. split; [vm_compute; reflexivity|]. split; [vm_compute; discriminate|].
+    cbn [map]. constructor; [split; [vm_compute; reflexivity|vm_compute; discriminate]|constructor].
+Qed.
+
+(* the 16 bytes that are there; the first read ends with the Ends of both open masters; the re-written document is complete,
+   with the sizes of the actual content (11 and 4 instead of the declared 40 and 20) and canonical widths and payloads; the
+   second read yields the same tags *)
+Example C02_cut_ex_run :
+  let input := enc_tdoc (snapshot_doc C02_cut_levels C02_cut_f) in
+  let first := p_run C02_cut_cfg input [RAll] in
+  let written := run_writer C02_cut_sp (map default_write (run_tags first)) [] in
+  input = [129; 168; 65; 1; 64; 2; 0; 5; 65; 3; 64; 20; 65; 2; 129; 7] /\
+  map out_tag first = [Some (TStart 129); Some (TElem 16641 (VU 5)); Some (TStart 16643); Some (TElem 16642 (VB [7]));
+                       Some (TEnd 16643); Some (TEnd 129); None] /\
+  Forall (fun r => fst r = WOk) (fst written) /\
+  snd written = [129; 139; 65; 1; 129; 5; 65; 3; 132; 65; 2; 129; 7] /\
+  snd written = enc_forest (map canon (close_levels C02_cut_levels C02_cut_f)) /\
+  map out_tag (p_run C02_cut_cfg (snd written) [RAll]) = map out_tag first.
+Proof. vm_compute. repeat split; try reflexivity. repeat constructor. Qed.
